@@ -525,6 +525,17 @@ def run_invariance(spec, rec, dadi, demes):
         ok, fc = rec.noraise("from_demes-returns", lambda: Spectrum.from_demes(build("generations", 1.0, c), names, ns, pts), site="Spectrum.from_demes", tags=dict(tags, c=c))
         if ok:
             rec.close("refsize-invariance", cmp(fc.data, base.data), 1e-9, site="Spectrum.from_demes", tags=dict(tags, c=c))
+        # sizes written relative to the reference size (what an export with Nref=1 produces): O(1) numbers, size changes within an
+        # interval well below one "individual"; the smallest such scale whose migration rates demes still accepts
+        for c1 in (1e-3, 5e-3, 2.5e-2):
+            try:
+                gsmall = build("generations", 1.0, c1)
+            except Exception:
+                continue
+            ok, fc = rec.noraise("from_demes-returns", lambda: Spectrum.from_demes(gsmall, names, ns, pts), site="Spectrum.from_demes", tags=dict(tags, c=c1))
+            if ok:
+                rec.close("refsize-invariance", cmp(fc.data, base.data), 1e-9, site="Spectrum.from_demes", tags=dict(tags, c=c1, relative_units=True))
+            break
         # explicit Ne: theta is relative to Ne, so the spectrum scales with Ne/root size when theta is fixed ... use Ne = root size
         ok, fn_ = rec.noraise("from_demes-returns", lambda: Spectrum.from_demes(g, names, ns, pts, Ne=1000.0), site="Spectrum.from_demes", tags=dict(tags, Ne=True))
         if ok:
@@ -627,6 +638,9 @@ def run_ancient(spec, rec, dadi, demes):
         NA, NB = logu(rng, 8, 60), logu(rng, 8, 60)
         NAe = NA if fn == "constant" else logu(rng, 8, 60)
         which = str(rng.choice(["one-ancient", "both-sampled-A"]))
+        if ci % 3 == 2:
+            which = "none-at-present"         # two ancient samples of different ages and no present-day one
+        ts_young = float(rng.uniform(0.3, ts - 0.4)) if ts > 1.0 else ts / 2
         b = demes.Builder(time_units="generations")
         b.add_deme("anc", epochs=[dict(start_size=N0, end_time=t1)])
         b.add_deme("A", ancestors=["anc"], epochs=[dict(start_size=NA, end_size=NAe, size_function=fn, end_time=0)])
@@ -640,7 +654,25 @@ def run_ancient(spec, rec, dadi, demes):
         T, T1 = t1 / (2 * N0), (t1 - ts) / (2 * N0)
         nuA = nu_of(fn, NA, NAe, N0, 0.0, T)
 
-        if which == "one-ancient":
+        if which == "none-at-present":
+            # A sampled ts_young ago, B sampled ts ago: history stops at ts_young, B's sample is a branch frozen since ts
+            T2 = (t1 - ts_young) / (2 * N0)
+            call = lambda: Spectrum.from_demes(g, ["A", "B"], ns, pts, sample_times=[ts_young, ts])
+
+            def hand(ns_, p):
+                xx = Numerics.default_grid(p)
+                phi = PhiManip.phi_1D(xx)
+                phi = PhiManip.phi_1D_to_2D(xx, phi)
+                phi = Integration.two_pops(phi, xx, T1, nu1=nuA, nu2=NB / N0)
+                phi = PhiManip.phi_2D_to_3D_split_2(xx, phi)                    # [A, B, B_frozen]
+                phi = Integration.three_pops(phi, xx, T2, nu1=nuA, nu2=NB / N0, nu3=1.0 / N0, frozen3=True, initial_t=T1)
+                phi = PhiManip.remove_pop(phi, xx, 2)                           # [A, B_frozen]
+                return Spectrum.from_phi(phi, ns_, (xx, xx))
+            ok1, fa = rec.noraise("from_demes-returns", call, site="Spectrum.from_demes", tags=tags)
+            ok2, fh = rec.noraise("program-returns", lambda: Numerics.make_extrap_func(hand)(ns, pts), site="dadi program", tags=tags)
+            if ok1 and ok2:
+                rec.close("ancient-equals-frozen", cmp(fa.data, fh.data), TOL, site="Spectrum.from_demes", tags=dict(tags, ts_young=ts_young))
+        elif which == "one-ancient":
             call = lambda: Spectrum.from_demes(g, ["A", "B"], ns, pts, sample_times=[ts, 0])
 
             def hand(ns_, p):
